@@ -425,6 +425,35 @@ func c19Replace(v interface{}, path []int, nv interface{}) interface{} {
 type c19Gen struct {
 	r     *rand.Rand
 	nname int
+	// structured-patterns: identifier patterns are also drawn from c19OddNames, the
+	// program's globals, (wrapped) the parameters of the enclosing function and (fnOK:
+	// in a case with a single alternative) the names of functions and builtins
+	pool    bool
+	wrapped bool
+	fnOK    bool
+}
+
+type c19Native struct{}
+
+// names nothing is bound to outside a case: the conventional catch-all, underscores,
+// single letters, keyword lookalikes
+var c19OddNames = []string{"_", "_", "_", "__", "_x", "x_", "_1", "a", "b", "k", "n", "v", "z", "nextval", "iffy", "exits", "inx", "truey", "nulls", "matchx", "printx", "returns", "function_", "iss", "BEGINx", "elsee", "unknownx", "breaker", "is_"}
+
+// names that mean something outside the case: what a read finds there
+func c19Outer(wrapped bool) map[string]interface{} {
+	m := map[string]interface{}{"gl": "G", "gn": float64(42), "f": c19Fn{}, "printf": c19Native{}, "json": c19Native{}, "num": c19Native{}}
+	if wrapped {
+		m["pa"] = "A"
+		m["pb"] = float64(7)
+	}
+	return m
+}
+
+func c19PrettyOuter(v interface{}) string {
+	if _, ok := v.(c19Native); ok {
+		return "<nativefunction>"
+	}
+	return c19Pretty(v, false)
 }
 
 func (g *c19Gen) value(depth int) interface{} {
@@ -498,6 +527,17 @@ func (g *c19Gen) pattern(v interface{}, depth int, pNoise float64) *c19Pat {
 		}
 	}
 	ident := func() *c19Pat {
+		if g.pool && chance(g.r, 0.45) {
+			names := append([]string{}, c19OddNames...)
+			names = append(names, "gl", "gn", "gl", "gn")
+			if g.wrapped {
+				names = append(names, "pa", "pb", "pa", "pb")
+			}
+			if g.fnOK {
+				names = append(names, "f", "f", "printf", "printf", "json", "num")
+			}
+			return &c19Pat{kind: "ident", name: pick(g.r, names)}
+		}
 		g.nname++
 		name := fmt.Sprintf("x%d", g.nname)
 		if g.nname > 1 && chance(g.r, 0.12) {
@@ -526,7 +566,8 @@ func (g *c19Gen) pattern(v interface{}, depth int, pNoise float64) *c19Pat {
 }
 
 func c19Structured(r *rand.Rand, emit func(Case)) {
-	g := &c19Gen{r: r}
+	g := &c19Gen{r: r, pool: true, wrapped: chance(r, 0.3)}
+	outer := c19Outer(g.wrapped)
 	subj := g.value(0)
 	if chance(r, 0.06) {
 		subj = c19Unset{}
@@ -543,6 +584,7 @@ func c19Structured(r *rand.Rand, emit func(Case)) {
 		block  bool
 		assign string
 		show   []string
+		all    bool // expression body: an array of every name instead of the last name
 	}
 	var cases []kase
 	target := r.Intn(ncase + 1) // the case meant to match (ncase: none); earlier ones are perturbed heavily
@@ -555,6 +597,9 @@ func c19Structured(r *rand.Rand, emit func(Case)) {
 			noise = 0.05
 		}
 		m := 1 + r.Intn(3)
+		// a name of ANOTHER alternative is read from outside the case; function values
+		// cannot be copied into r, so their names only appear where every name is bound
+		g.fnOK = m == 1
 		for j := 0; j < m; j++ {
 			k.pats = append(k.pats, g.pattern(subj, 0, noise))
 		}
@@ -567,6 +612,7 @@ func c19Structured(r *rand.Rand, emit func(Case)) {
 		}
 		sort.Strings(k.show)
 		k.block = chance(r, 0.5)
+		k.all = len(k.show) > 1 && chance(r, 0.6)
 		if k.block && len(k.show) > 0 && chance(r, 0.4) {
 			k.assign = pick(r, k.show)
 		}
@@ -593,17 +639,27 @@ outer:
 	var files []File
 	var sb strings.Builder
 	sb.WriteString("function f(a) { return a }\n")
+	head, tail := "BEGIN {\n", "}\n"
 	if js, ok := c19JSON(subj); ok && chance(r, 0.35) {
 		inDoc = true
 		files = []File{{Name: "in.json", Data: []byte(`{"s": ` + js + `}`)}}
-		sb.WriteString("{\n  s = $.s\n")
+		head = "{\n"
+	}
+	if g.wrapped {
+		// the match sits in a function whose parameters are pattern names too
+		tail = "}\n" + head + "  gl = \"G\"; gn = 42\n  w(\"A\", 7)\n}\n"
+		head = "function w(pa, pb) {\n"
+	} else {
+		head += "  gl = \"G\"; gn = 42\n"
+	}
+	sb.WriteString(head)
+	if inDoc {
+		sb.WriteString("  s = $.s\n")
 	} else if _, u := subj.(c19Unset); u {
-		sb.WriteString("BEGIN {\n")
 		stext = "s"
 	} else {
-		sb.WriteString("BEGIN {\n  s = " + stext + "\n")
+		sb.WriteString("  s = " + stext + "\n")
 	}
-	_ = inDoc
 	sb.WriteString("  r = match (s) {\n")
 	allNames := map[string]bool{}
 	for i, k := range cases {
@@ -620,6 +676,8 @@ outer:
 				fmt.Fprintf(&sb, "      %s = \"W\"\n", k.assign)
 			}
 			sb.WriteString("    }")
+		} else if k.all {
+			fmt.Fprintf(&sb, "    %s => [%s]", strings.Join(texts, ", "), strings.Join(k.show, ", "))
 		} else if len(k.show) > 0 {
 			fmt.Fprintf(&sb, "    %s => %s", strings.Join(texts, ", "), k.show[len(k.show)-1])
 		} else {
@@ -637,13 +695,19 @@ outer:
 	}
 	sort.Strings(nl)
 	if len(nl) > 0 {
+		// after the match every name is what it was outside: unbound, or the global /
+		// parameter / function / builtin of that name
 		parts := make([]string, len(nl))
 		for i, n := range nl {
-			parts[i] = n + " is unknown"
+			if _, has := outer[n]; has {
+				parts[i] = n
+			} else {
+				parts[i] = n + " is unknown"
+			}
 		}
 		sb.WriteString("  print " + strings.Join(parts, ", ") + "\n")
 	}
-	sb.WriteString("}\n")
+	sb.WriteString(tail)
 	prog := sb.String()
 
 	var want strings.Builder
@@ -660,6 +724,9 @@ outer:
 			if p, ok := bind[n]; ok {
 				return c19At(subj, p)
 			}
+			if v, has := outer[n]; has {
+				return v // a name of another alternative that means something outside the case
+			}
 			return c19Unset{} // a name of another alternative: created unset in the match frame
 		}
 		if k.block {
@@ -671,8 +738,16 @@ outer:
 			if k.assign != "" {
 				if p, ok := bind[k.assign]; ok {
 					after = c19Replace(subj, p, "W") // the name is the subject's (element's) own cell
+				} else if _, has := outer[k.assign]; has {
+					outer[k.assign] = "W" // not bound by the alternative that matched: the outer variable is assigned
 				}
 			}
+		} else if k.all {
+			vs := make([]interface{}, len(k.show))
+			for i, n := range k.show {
+				vs[i] = val(n)
+			}
+			want.WriteString("r " + c19Pretty(vs, false) + "\n")
 		} else if len(k.show) > 0 {
 			want.WriteString("r " + c19Pretty(val(k.show[len(k.show)-1]), false) + "\n")
 		} else {
@@ -683,8 +758,11 @@ outer:
 		want.WriteString("s " + c19Pretty(after, false) + "\n")
 		if len(nl) > 0 {
 			parts := make([]string, len(nl))
-			for i := range nl {
+			for i, n := range nl {
 				parts[i] = "true"
+				if v, has := outer[n]; has {
+					parts[i] = c19PrettyOuter(v)
+				}
 			}
 			want.WriteString(strings.Join(parts, " ") + "\n")
 		}
@@ -1187,7 +1265,7 @@ func init() {
 	})
 	register(Family{
 		Name: "structured-patterns", Prop: "C19",
-		Rule: "random subjects (scalars, arrays of length 0-4 nested to depth 3, objects, unset, unset element) x 0-5 cases of 1-3 alternatives derived from the subject and perturbed (literals, identifiers incl. duplicate names, nested array patterns, wrong lengths, unrelated patterns, not-allowed patterns); bodies print the bound names, yield one, or assign to one; afterwards the subject and `is unknown` of every name are printed; oracle: reference matcher with binding paths",
+		Rule: "random subjects (scalars, arrays of length 0-4 nested to depth 3, objects, unset, unset element) x 0-5 cases of 1-3 alternatives derived from the subject and perturbed (literals, identifiers incl. duplicate names, nested array patterns, wrong lengths, unrelated patterns, not-allowed patterns); identifier NAMES are fresh (x1, x2, ...) or (45 %) drawn from a pool: _, __, _x, x_, _1, single letters, keyword lookalikes (nextval, iffy, exits, truey, nulls, matchx, BEGINx, ...), the globals gl and gn, the parameters pa and pb of the function the match sits in (30 % of the programs), and, in cases with one alternative, the function name f and the builtins printf, json, num; block bodies print EVERY name of the case, expression bodies yield one name or the array of all of them, some bodies assign to a name; afterwards the subject is printed and every name is checked: `is unknown` for names that mean nothing outside, the outer value (global, parameter, <function>, <nativefunction>, or what the body assigned to an outer variable the matching alternative did not bind) otherwise; oracle: reference matcher with binding paths",
 		Gen: func(r *rand.Rand, tier string, emit func(Case)) {
 			for i, n := 0, tierN(tier, 8000, 100000); i < n; i++ {
 				c19Structured(r, emit)
